@@ -66,6 +66,7 @@ class Harness:
                 path_ok = s.check() != z3.unsat
                 for o in r.ctx.obligations:
                     o.meta["cover_known"] = path_ok
+                    o.meta["path_infeasible"] = not path_ok
             self.obligations.extend(r.ctx.obligations)
         return results
 
@@ -117,6 +118,9 @@ def run_check(repo, chk: Check, tier, prefix):
     for name, insts in groups.items():
         results, ms, info, vac = [], 0, {}, 0
         for o in insts:
+            if o.meta.get("path_infeasible"):
+                vac += 1  # the whole path is infeasible under the full path condition: vacuous instance
+                continue
             r, t, inf = discharge(o, timeout_ms=15000)
             ms += t
             if r == "discharged":
